@@ -271,10 +271,11 @@ Definition read_all (a : bytes) : res (list read_entry) :=
   do (es, f) <- entries read_chunk_stream a;
   match f with FinOk => Ok es | FinErr e => Err e | FinPanic => Panic end.
 (* run_cmd of Transform.v: chmod / chown / xattr / acl without a pattern leave the archive file alone;
-   otherwise read every entry, edit, write a new archive *)
+   otherwise read every entry, edit (with the selection the command works with, Transform.eff_sel: strip without
+   FILES takes every entry), write a new archive *)
 Definition run_edit (keep pw : bool) (c : Transform.cmd) (nfiles : N) (sel : bytes -> bool) (a : bytes) : res bytes :=
   if Transform.needs_files c && N.eqb nfiles 0 then Ok a
-  else do es <- read_all a; do es' <- edit_archive keep pw c sel es; Ok (write_raw_archive 0 (map ser_entry es')).
+  else do es <- read_all a; do es' <- edit_archive keep pw c (Transform.eff_sel c nfiles sel) es; Ok (write_raw_archive 0 (map ser_entry es')).
 
 (* the entry-level run is the run of Transform.v on the views *)
 Lemma edit_list_view c sel : forall es es', edit_list c sel es = Ok es' ->
@@ -327,8 +328,8 @@ Theorem transform_wf keep pw c nfiles sel a a' : cmd_ok c -> wf_archive a = true
 Proof.
   intros CO WA. unfold run_edit. destruct (Transform.needs_files c && N.eqb nfiles 0); [intros [= <-]; exact WA|].
   destruct (wf_archive_read _ WA) as (es & D & R & _). unfold read_all. rewrite R. cbn [bind].
-  destruct (edit_archive keep pw c sel es) as [es'| |] eqn:EA; cbn [bind]; try discriminate. intros [= <-].
-  apply writer_wf. exact (edit_archive_writable keep pw c sel CO _ _ (proj2 writable_exact _ _ D) EA).
+  destruct (edit_archive keep pw c (Transform.eff_sel c nfiles sel) es) as [es'| |] eqn:EA; cbn [bind]; try discriminate. intros [= <-].
+  apply writer_wf. exact (edit_archive_writable keep pw c _ CO _ _ (proj2 writable_exact _ _ D) EA).
 Qed.
 End View.
 
